@@ -78,7 +78,7 @@ KIND = {"terminal": 0, "property": 1, "argref": 2, "name": 3, "number": 4}
 
 def generate(res):
     src = C.read(os.path.join(C.REPO, "src", "infer_intent.rs"))
-    t = G.parse_source(src)
+    t = C.translate(res, "c19", "token patterns of infer_intent.rs", lambda: G.parse_source(src))
     C.write_if_changed(os.path.join(C.GEN, "IntentRe.v"), G.render(t))
     ok, log = C.build_harness()
     if not ok:
@@ -121,7 +121,7 @@ def generate(res):
     body += "Definition accept_obs : list (list N * bool) := " + clist(acc_items) + ".\n"
     C.write_if_changed(os.path.join(C.GEN, "C19Obs.v"), body)
     if res is not None:
-        res.extra["gen_sources"] = [{"file": "src/infer_intent.rs", "events": t["events"], "terminals": t["terminals"]}]
+        res.extra["gen_sources"] = [{"file": "src/infer_intent.rs", "events": t["events"], "terminals": t["terminals"]}] if t else []
         res.extra["tie_cases"] = {"lexer": len(lex_items), "acceptance": len(acc_items)}
     return values, acc
 
